@@ -117,6 +117,10 @@ Lemma ck_args_sig : forall c c' g g' o o', kind_of o = kind_of o' ->
   sig_of (ck_args c g o) = sig_of (ck_args c' g' o').
 Proof. intros c c' g g' [] [] H; try discriminate; reflexivity. Qed.
 
+(* component i of an equality between argument tuples (injection on the whole tuple is slow) *)
+Ltac nth_eq H i Hn :=
+  pose proof (f_equal (fun l => nth_error l i) H) as Hn; cbn [nth_error] in Hn; injection Hn as Hn.
+
 (* ================= Go vs Solidity: the int64 cast ================= *)
 
 Lemma map_u64v_small {A} : forall (f : A -> Z) l,
@@ -161,10 +165,11 @@ Proof.
   apply encode_injective in H; try (apply ck_args_wt; auto); try (apply ck_args_sig; reflexivity).
   unfold go_checkpoint_args, sol_checkpoint_args in H.
   destruct o as [s|b|c]; cbn [ck_args wf_obj u64_small u64v] in *.
-  - destruct W as (N0 & F & _). injection H as HN HM. split. apply go_u64_fix; auto.
+  - destruct W as (N0 & F & _). nth_eq H 2%nat HN. nth_eq H 4%nat HM. split. apply go_u64_fix; auto.
     apply (map_u64v_eq_small snd); auto. eapply Forall_impl; [|exact F]. intros a Ha. apply Ha.
-  - destruct W as (N0 & T0 & _). injection H as HN HT. split; apply go_u64_fix; auto.
-  - destruct W as (_ & _ & _ & _ & _ & _ & _ & _ & _ & N0 & T0 & E0). injection H as HN HT HE.
+  - destruct W as (N0 & T0 & _). nth_eq H 5%nat HN. nth_eq H 7%nat HT. split; apply go_u64_fix; auto.
+  - destruct W as (_ & _ & _ & _ & _ & _ & _ & _ & _ & N0 & T0 & E0).
+    nth_eq H 9%nat HN. nth_eq H 10%nat HT. nth_eq H 11%nat HE.
     repeat split; apply go_u64_fix; auto.
 Qed.
 
@@ -321,17 +326,21 @@ Proof.
   destruct (preimage_kind _ _ _ _ _ _ G G' H) as [EG EK]. split; auto.
   apply encode_injective in H; try (apply ck_args_wt; auto); try (apply ck_args_sig; auto).
   destruct o as [s|b|c]; destruct o' as [s'|b'|c']; try discriminate EK; cbn [ck_args wf_obj u64v] in *.
-  - destruct s as [n m], s' as [n' m']. cbn in *. injection H as _ HN HA HP.
+  - destruct s as [n m], s' as [n' m']. cbn [os_nonce os_members] in *.
+    nth_eq H 2%nat HN. nth_eq H 3%nat HA. nth_eq H 4%nat HP.
     destruct W as (N0 & F & _), W' as (N0' & F' & _).
     apply go_u64_inj in HN; auto. subst.
     f_equal. f_equal. apply pairs_eq_cast; auto; eapply Forall_impl; try eassumption; intros a Ha; apply Ha.
-  - destruct b as [n t txs tok fr], b' as [n' t' txs' tok' fr']. cbn in *.
-    injection H as _ H1 H2 H3 HN HK HT HF.
+  - destruct b as [n t txs tok fr], b' as [n' t' txs' tok' fr']. cbn [b_nonce b_timeout b_txs b_token b_feerecv] in *.
+    nth_eq H 2%nat H1. nth_eq H 3%nat H2. nth_eq H 4%nat H3. nth_eq H 5%nat HN.
+    nth_eq H 6%nat HK. nth_eq H 7%nat HT. nth_eq H 8%nat HF.
     destruct W as (N0 & T0 & _), W' as (N0' & T0' & _).
     apply go_u64_inj in HN; auto. apply go_u64_inj in HT; auto. subst.
     f_equal. f_equal. apply transfers_eq; auto.
-  - destruct c as [a1 a2 tk a3 d m n t e], c' as [a1' a2' tk' a3' d' m' n' t' e']. cbn in *.
-    injection H as _ H1 H2 H3 H4 H5 H6 H7 H8 H9 H10.
+  - destruct c as [a1 a2 tk a3 d m n t e], c' as [a1' a2' tk' a3' d' m' n' t' e'].
+    cbn [c_sender c_refund c_tokens c_to c_data c_memo c_nonce c_timeout c_event_nonce] in *.
+    nth_eq H 2%nat H1. nth_eq H 3%nat H2. nth_eq H 4%nat H3. nth_eq H 5%nat H4. nth_eq H 6%nat H5.
+    nth_eq H 7%nat H6. nth_eq H 8%nat H7. nth_eq H 9%nat H8. nth_eq H 10%nat H9. nth_eq H 11%nat H10.
     destruct W as (_ & _ & _ & _ & _ & _ & _ & _ & _ & N0 & T0 & E0).
     destruct W' as (_ & _ & _ & _ & _ & _ & _ & _ & _ & N0' & T0' & E0').
     apply go_u64_inj in H8; auto. apply go_u64_inj in H9; auto. apply go_u64_inj in H10; auto. subst.
